@@ -6,6 +6,12 @@
 // Identities: every Cell / RawCell gets the index of its creation (pointer -> id tables below);
 // nothing is freed before the end of a history, so pointer equality is id equality.
 // Names: the model name n (an integer) is the C string "N<hex n>".
+//
+// Property-level oracles (P lines), all computed from the real objects only: `oracle` (histories inside the proved
+// contract), `deviations` (the recorded refuted clauses R1-R8, one stable key each) and, on the initial library and after
+// every operation, `top_level_deviations` / `dependency_deviations`: top_level and the six dependency queries of every
+// member against sets recomputed from the pointer graph by the harness' own traversal (keys top_level:wrong-set,
+// dependencies:wrong-set unless the difference is exactly one of the recorded causes).
 #include <algorithm>
 #include <set>
 #include <sys/resource.h>
@@ -625,6 +631,237 @@ static void note(std::vector<Deviation>& v, int rank, const char* key, const std
     v.push_back({rank, key, text});
 }
 
+// ---------------------------------------------------------------------------------------------
+// Independent dependency oracle ("dependency queries return exactly the direct or transitive set
+// of referenced cells").  The expectation is computed from the pointer graph in memory with the
+// harness' own traversal (work list + visited sets), never through a gdstk query:
+//   edges of a Cell    : reference_array; type Cell -> that cell, type RawCell -> that raw cell,
+//                        type Name -> the member (cell_array first, then rawcell_array) bearing the name
+//   edges of a RawCell : RawCell::dependencies
+// and compared, for every member cell / raw cell, with Cell::get_dependencies(false / true),
+// Cell::get_raw_dependencies(false / true) and RawCell::get_dependencies(false / true).
+// A difference is attributed to a recorded finding only when withdrawing that documented cause
+// from the expectation makes the two sets equal:
+//   * top_level:byname-ref-ignored      - the expectation recomputed WITHOUT the by-name edges equals the answer;
+//   * top_level:name-keyed-after-remove - results are kept in a map keyed by NAME: the answer is the expectation (without
+//                                         by-name edges) with exactly one object kept per name (only possible when two
+//                                         distinct referenced objects bear the same name);
+// any other difference is `dependencies:wrong-set`.  Recursive queries on cells that reach a cycle
+// of Cell references are skipped (they never return; reported as replace_cell:self-cycle).
+
+static void cell_edges(World& w, const Cell* c, bool byname, std::vector<Obj>& out) {
+    for (uint64_t j = 0; j < c->reference_array.count; j++) {
+        const Reference* r = c->reference_array[j];
+        if (r->type == ReferenceType::Cell)
+            out.push_back({1, w.cid[r->cell]});
+        else if (r->type == ReferenceType::RawCell)
+            out.push_back({2, w.rid[r->rawcell]});
+        else if (byname) {
+            Obj o = resolve(w, r);
+            if (o.kind != 0) out.push_back(o);
+        }
+    }
+}
+
+struct DepSets {
+    std::set<int> dc, tc, dr, tr;  // direct / transitive cells, direct / transitive raw cells
+};
+
+// everything reachable from the objects in `work` (these included)
+static void reach(World& w, std::vector<Obj> work, bool byname, std::set<int>& vc, std::set<int>& vr) {
+    while (!work.empty()) {
+        Obj o = work.back();
+        work.pop_back();
+        if (o.kind == 1) {
+            if (!vc.insert(o.id).second) continue;
+            cell_edges(w, w.cells[o.id], byname, work);
+        } else if (o.kind == 2) {
+            if (!vr.insert(o.id).second) continue;
+            const RawCell* r = w.raws[o.id];
+            for (uint64_t j = 0; j < r->dependencies.count; j++) work.push_back({2, w.rid[r->dependencies[j]]});
+        }
+    }
+}
+static DepSets expected_of_cell(World& w, const Cell* c, bool byname) {
+    DepSets e;
+    std::vector<Obj> ed;
+    cell_edges(w, c, byname, ed);
+    for (Obj o : ed) (o.kind == 1 ? e.dc : e.dr).insert(o.id);
+    reach(w, ed, byname, e.tc, e.tr);
+    return e;
+}
+static DepSets expected_of_raw(World& w, const RawCell* r) {
+    DepSets e;
+    std::vector<Obj> ed;
+    for (uint64_t j = 0; j < r->dependencies.count; j++) ed.push_back({2, w.rid[r->dependencies[j]]});
+    for (Obj o : ed) e.dr.insert(o.id);
+    reach(w, ed, false, e.tc, e.tr);
+    return e;
+}
+// length of the longest dependency chain headed by raw cell r (r alone = 1)
+static int raw_depth(World& w, const RawCell* r) {
+    int d = 0;
+    for (uint64_t j = 0; j < r->dependencies.count; j++) d = std::max(d, raw_depth(w, r->dependencies[j]));
+    return d + 1;
+}
+
+template <class T, class M>
+static std::set<int> ids_of(Map<T*>& m, M& table) {
+    std::set<int> v;
+    for (MapItem<T*>* it = m.next(NULL); it; it = m.next(it)) v.insert(table[it->value]);
+    return v;
+}
+static std::string set_text(const std::set<int>& s) {
+    std::vector<std::string> v;
+    for (int x : s) v.push_back(hx(x));
+    return "[" + join(v) + "]";
+}
+// is `got` the set `exp` with exactly one object kept per name?
+static bool name_selection(const std::set<int>& got, const std::set<int>& exp, std::function<std::string(int)> name_of) {
+    std::set<std::string> ng, ne;
+    for (int x : got) {
+        if (!exp.count(x)) return false;
+        if (!ng.insert(name_of(x)).second) return false;
+    }
+    for (int x : exp) ne.insert(name_of(x));
+    return ng == ne && got.size() < exp.size();
+}
+
+// one comparison; `e0` expectation with by-name edges, `e1` without
+static void dep_compare(std::vector<Deviation>& v, bool seen[3], const std::string& when, const std::string& query, const std::string& what,
+                        const std::set<int>& got, const std::set<int>& e0, const std::set<int>& e1,
+                        std::function<std::string(int)> name_of) {
+    if (got == e0) return;
+    std::string tail = when + " " + query + " returns " + what + " " + set_text(got) + " but the pointer graph gives " + set_text(e0);
+    if (got == e1) {
+        if (!seen[0]) note(v, 7, "top_level:byname-ref-ignored", tail + " (the references by name are ignored: without them " + set_text(e1) + ")");
+        seen[0] = true;
+    } else if (name_selection(got, e1, name_of)) {
+        if (!seen[1])
+            note(v, 3, "top_level:name-keyed-after-remove",
+                 tail + (e0 != e1 ? " (references by name ignored: without them " + set_text(e1) + "; " : " (") +
+                     "results keyed by name: one of several referenced objects of the same name kept)");
+        seen[1] = true;
+    } else {
+        if (!seen[2]) note(v, 0, "dependencies:wrong-set", tail);
+        seen[2] = true;
+    }
+}
+
+// `when`: "after `op`" / "in the initial library"
+static void dependency_deviations(World& w, const std::string& when, std::vector<Deviation>& v) {
+    bool seen[3] = {false, false, false};
+    auto cname = [&](int i) { return std::string(w.cells[i]->name); };
+    auto rname = [&](int i) { return std::string(w.raws[i]->name); };
+    for (int i : carr(w)) {
+        Cell* c = w.cells[i];
+        DepSets e0 = expected_of_cell(w, c, true), e1 = expected_of_cell(w, c, false);
+        bool cyclic = reaches_cycle(c);
+        for (int rec = 0; rec < 2; rec++) {
+            if (rec && cyclic) continue;
+            std::string arg = rec ? "(true)" : "(false)";
+            Map<Cell*> mc = {};
+            c->get_dependencies(rec, mc);
+            std::set<int> gc = ids_of(mc, w.cid);
+            mc.clear();
+            dep_compare(v, seen, when, "Cell::get_dependencies" + arg + " on cell " + hx(i), "cells", gc, rec ? e0.tc : e0.dc, rec ? e1.tc : e1.dc, cname);
+            Map<RawCell*> mr = {};
+            c->get_raw_dependencies(rec, mr);
+            std::set<int> gr = ids_of(mr, w.rid);
+            mr.clear();
+            dep_compare(v, seen, when, "Cell::get_raw_dependencies" + arg + " on cell " + hx(i), "raw cells", gr, rec ? e0.tr : e0.dr, rec ? e1.tr : e1.dr,
+                        rname);
+        }
+    }
+    for (int i : rarr(w)) {
+        RawCell* r = w.raws[i];
+        DepSets e = expected_of_raw(w, r);
+        for (int rec = 0; rec < 2; rec++) {
+            Map<RawCell*> mr = {};
+            r->get_dependencies(rec, mr);
+            std::set<int> gr = ids_of(mr, w.rid);
+            mr.clear();
+            dep_compare(v, seen, when, std::string("RawCell::get_dependencies") + (rec ? "(true)" : "(false)") + " on raw cell " + hx(i), "raw cells", gr,
+                        rec ? e.tr : e.dr, rec ? e.tr : e.dr, rname);
+        }
+    }
+}
+
+// R2 / R1: top_level against what the references say.  `when`: "after `op`" / "in the initial library"
+static void top_level_deviations(World& w, const std::string& when, std::vector<Deviation>& v) {
+    Snap a = snap(w);
+    const std::vector<int>& ca = a.ca;
+    Array<Cell*> tc = {};
+    Array<RawCell*> tr = {};
+    w.lib->top_level(tc, tr);
+    std::vector<std::string> x, y;
+    std::set<int> topc, topr;
+    for (uint64_t i = 0; i < tc.count; i++) {
+        x.push_back(hx(w.cid[tc[i]]));
+        topc.insert(w.cid[tc[i]]);
+    }
+    for (uint64_t i = 0; i < tr.count; i++) {
+        y.push_back(hx(w.rid[tr[i]]));
+        topr.insert(w.rid[tr[i]]);
+    }
+    tc.clear();
+    tr.clear();
+    std::string got = "T[" + join(x) + "]U[" + join(y) + "]", want = naive_top(w);
+    if (got != want) {
+        // the recorded defect: dependencies are kept in a map keyed by NAME, so a member that is referenced drops out of the
+        // map (and is reported top level) only when another referenced object bears the same name.  Any other difference
+        // from the identity-based answer is a different failure.
+        std::set<int> refd_c, refd_r;
+        for (int i : carr(w)) {
+            Cell* c = w.cells[i];
+            for (uint64_t j = 0; j < c->reference_array.count; j++) {
+                Reference* r = c->reference_array[j];
+                if (r->type == ReferenceType::Cell) refd_c.insert(w.cid[r->cell]);
+                if (r->type == ReferenceType::RawCell) refd_r.insert(w.rid[r->rawcell]);
+            }
+        }
+        for (int i : rarr(w))
+            for (uint64_t j = 0; j < w.raws[i]->dependencies.count; j++) refd_r.insert(w.rid[w.raws[i]->dependencies[j]]);
+        bool explained = true;
+        for (int i : carr(w)) {
+            bool want_top = !refd_c.count(i);
+            if (want_top == (topc.count(i) > 0)) continue;
+            bool twin = false;
+            if (!want_top)
+                for (int j : refd_c)
+                    if (j != i && strcmp(w.cells[j]->name, w.cells[i]->name) == 0) twin = true;
+            if (!twin) explained = false;
+        }
+        for (int i : rarr(w)) {
+            bool want_top = !refd_r.count(i);
+            if (want_top == (topr.count(i) > 0)) continue;
+            bool twin = false;
+            if (!want_top)
+                for (int j : refd_r)
+                    if (j != i && strcmp(w.raws[j]->name, w.raws[i]->name) == 0) twin = true;
+            if (!twin) explained = false;
+        }
+        note(v, 3, explained ? "top_level:name-keyed-after-remove" : "top_level:wrong-set",
+             when + " top_level gives " + got + " but the members no member points to are " + want);
+    }
+    for (int i : ca) {
+        bool hit = false;
+        for (size_t j = 0; j < a.res[i].size(); j++) {
+            Obj o = a.res[i][j];
+            if (a.rtype[i][j] != (int)ReferenceType::Name || o.kind == 0) continue;
+            if (o.kind == 1 && o.id == i) continue;
+            if ((o.kind == 1 && topc.count(o.id)) || (o.kind == 2 && topr.count(o.id))) {
+                note(v, 7, "top_level:byname-ref-ignored",
+                     when + " " + (o.kind == 1 ? "cell " : "raw cell ") + hx(o.id) + " is reported top level although cell " +
+                         hx(i) + " references it by name (" + a.rtext[i][j] + ")");
+                hit = true;
+                break;
+            }
+        }
+        if (hit) break;
+    }
+}
+
 // `cyc_before`: was there a cycle of Cell references in the store before the operation
 static std::vector<Deviation> deviations(World& w, const Snap& b, bool cyc_before, const std::string& op) {
     std::vector<Deviation> v;
@@ -717,84 +954,17 @@ static std::vector<Deviation> deviations(World& w, const Snap& b, bool cyc_befor
             if (clash) note(v, 6, "rename_cell:collision", "`" + op + "` gives a cell the name of another member without complaint");
         }
     }
-    // R2 / R1: top_level against what the references say
-    {
-        Array<Cell*> tc = {};
-        Array<RawCell*> tr = {};
-        w.lib->top_level(tc, tr);
-        std::vector<std::string> x, y;
-        std::set<int> topc, topr;
-        for (uint64_t i = 0; i < tc.count; i++) {
-            x.push_back(hx(w.cid[tc[i]]));
-            topc.insert(w.cid[tc[i]]);
-        }
-        for (uint64_t i = 0; i < tr.count; i++) {
-            y.push_back(hx(w.rid[tr[i]]));
-            topr.insert(w.rid[tr[i]]);
-        }
-        tc.clear();
-        tr.clear();
-        std::string got = "T[" + join(x) + "]U[" + join(y) + "]", want = naive_top(w);
-        if (got != want) {
-            // the recorded defect: dependencies are kept in a map keyed by NAME, so a member that is referenced drops out of the
-            // map (and is reported top level) only when another referenced object bears the same name.  Any other difference
-            // from the identity-based answer is a different failure.
-            std::set<int> refd_c, refd_r;
-            for (int i : carr(w)) {
-                Cell* c = w.cells[i];
-                for (uint64_t j = 0; j < c->reference_array.count; j++) {
-                    Reference* r = c->reference_array[j];
-                    if (r->type == ReferenceType::Cell) refd_c.insert(w.cid[r->cell]);
-                    if (r->type == ReferenceType::RawCell) refd_r.insert(w.rid[r->rawcell]);
-                }
-            }
-            for (int i : rarr(w))
-                for (uint64_t j = 0; j < w.raws[i]->dependencies.count; j++) refd_r.insert(w.rid[w.raws[i]->dependencies[j]]);
-            bool explained = true;
-            for (int i : carr(w)) {
-                bool want_top = !refd_c.count(i);
-                if (want_top == (topc.count(i) > 0)) continue;
-                bool twin = false;
-                if (!want_top)
-                    for (int j : refd_c)
-                        if (j != i && strcmp(w.cells[j]->name, w.cells[i]->name) == 0) twin = true;
-                if (!twin) explained = false;
-            }
-            for (int i : rarr(w)) {
-                bool want_top = !refd_r.count(i);
-                if (want_top == (topr.count(i) > 0)) continue;
-                bool twin = false;
-                if (!want_top)
-                    for (int j : refd_r)
-                        if (j != i && strcmp(w.raws[j]->name, w.raws[i]->name) == 0) twin = true;
-                if (!twin) explained = false;
-            }
-            note(v, 3, explained ? "top_level:name-keyed-after-remove" : "top_level:wrong-set",
-                 "after `" + op + "` top_level gives " + got + " but the members no member points to are " + want);
-        }
-        for (int i : ca) {
-            bool hit = false;
-            for (size_t j = 0; j < a.res[i].size(); j++) {
-                Obj o = a.res[i][j];
-                if (a.rtype[i][j] != (int)ReferenceType::Name || o.kind == 0) continue;
-                if (o.kind == 1 && o.id == i) continue;
-                if ((o.kind == 1 && topc.count(o.id)) || (o.kind == 2 && topr.count(o.id))) {
-                    note(v, 7, "top_level:byname-ref-ignored",
-                         "after `" + op + "` " + (o.kind == 1 ? "cell " : "raw cell ") + hx(o.id) + " is reported top level although cell " +
-                             hx(i) + " references it by name (" + a.rtext[i][j] + ")");
-                    hit = true;
-                    break;
-                }
-            }
-            if (hit) break;
-        }
-    }
+    top_level_deviations(w, "after `" + op + "`", v);
+    // dependency queries against the pointer graph
+    dependency_deviations(w, "after `" + op + "`", v);
     return v;
 }
 
 static void keep_best(Deviation& best, const std::vector<Deviation>& v) {
     for (auto& d : v) {
-        auto fresh = [](const std::string& key) { return key == "top_level:wrong-set" || key == "copy_from:raw-cells-differ"; };
+        auto fresh = [](const std::string& key) {
+            return key == "top_level:wrong-set" || key == "copy_from:raw-cells-differ" || key == "dependencies:wrong-set";
+        };
         if (fresh(best.key)) return;  // a failure that is not one of the recorded defects is never displaced
         if (best.rank < 0 || d.rank < best.rank || fresh(d.key)) best = d;
     }
@@ -1100,7 +1270,9 @@ struct Gen {
 
 // raw cells the way users get them: write a GDSII file, load it with read_rawcells.  Returns
 // the "nr" operations (dependencies in the order the loader left them) and registers the objects.
-static std::vector<std::string> raws_from_file(World& w, Rng& g, int count, std::vector<uint64_t>& names) {
+// `chain`: the first `chain` cells written form a chain (cell i references cell i-1), so that raw cell chain-1 heads a
+// dependency chain `chain` deep.
+static std::vector<std::string> raws_from_file(World& w, Rng& g, int count, std::vector<uint64_t>& names, int chain = 0) {
     std::vector<std::string> ops;
     Library tmp = {};
     tmp.init("tmp", 1e-6, 1e-9);
@@ -1110,9 +1282,10 @@ static std::vector<std::string> raws_from_file(World& w, Rng& g, int count, std:
         Cell* c = (Cell*)allocate_clear(sizeof(Cell));
         c->name = copy_string(nm(names[i]).c_str(), NULL);
         c->polygon_array.append(mk_polygon(make_tag(1, 0)));
-        int nd = i ? (int)g.below(3) : 0;
-        for (int j = 0; j < nd; j++) {
-            int d = (int)g.below(i);
+        bool link = i > 0 && i < chain;
+        int nd = i ? (int)g.below(link ? 2 : 3) : 0;
+        for (int j = link ? -1 : 0; j < nd; j++) {
+            int d = j < 0 ? i - 1 : (int)g.below(i);
             Reference* r = (Reference*)allocate_clear(sizeof(Reference));
             if (g.coin())
                 r->init(cs[d]);
@@ -1198,6 +1371,12 @@ static void replay_case(Out& out, const std::string& payload) {
     Sections d = dump(w);
     std::string result = flat(d);
     Deviation dev = {-1, "", ""};
+    {
+        std::vector<Deviation> v0;
+        top_level_deviations(w, "in the initial library", v0);
+        dependency_deviations(w, "in the initial library", v0);
+        keep_best(dev, v0);
+    }
     std::string sofar = setup + "|";
     for (auto& s : split(rest, ';')) {
         if (words(s).empty()) continue;
@@ -1230,8 +1409,10 @@ static void gen_case(Out& out, Rng& g, bool legit) {
         exec_op(w, s);
         setup.push_back(s);
     };
-    // --- initial library: 0-3 raw cells, 2-7 cells forming a DAG with shared sub-cells
-    int nraw = (int)g.below(4);
+    // --- initial library: 0-3 raw cells (chain histories, about one in four: 3-5 raw cells of which the first 3 or 4 form a
+    // dependency chain r0 <- r1 <- r2 (<- r3), headed by the last one), 2-7 cells forming a DAG with shared sub-cells
+    int chain = g.chance(24) ? (int)g.range(3, 4) : 0;
+    int nraw = chain ? chain + (int)g.below(2) : (int)g.below(4);
     std::vector<uint64_t> used;
     auto fresh_name = [&]() {
         uint64_t n;
@@ -1244,12 +1425,14 @@ static void gen_case(Out& out, Rng& g, bool legit) {
     if (from_file) {
         std::vector<uint64_t> names;
         for (int i = 0; i < nraw; i++) names.push_back(fresh_name());
-        for (auto& s : raws_from_file(w, g, nraw, names)) setup.push_back(s);
+        for (auto& s : raws_from_file(w, g, nraw, names, chain)) setup.push_back(s);
         out.count("raws:file");
     } else {
         for (int i = 0; i < nraw; i++) {
             std::vector<std::string> d;
-            int nd = i ? (int)g.below(3) : 0;
+            bool link = i > 0 && i < chain;
+            if (link) d.push_back(hx(i - 1));
+            int nd = i ? (int)g.below(link ? 2 : 3) : 0;
             for (int j = 0; j < nd; j++) {
                 std::string s = hx(g.below(i));
                 if (std::find(d.begin(), d.end(), s) == d.end()) d.push_back(s);
@@ -1259,10 +1442,21 @@ static void gen_case(Out& out, Rng& g, bool legit) {
         if (nraw) out.count("raws:hand");
     }
     for (int i = 0; i < nraw; i++) doop("ar " + hx(i));
-    int ncell = (int)g.range(2, 7);
+    int ncell = (int)g.range(chain ? 3 : 2, 7);
+    // chain histories: cell k0 references the head of the raw chain, cell k1 > k0 references cell k0, cell k2 > k1 references
+    // cell k1 (the chain is seen directly, through one and through two levels of Cell references)
+    int k0 = -1, k1 = -1, k2 = -1;
+    if (chain) {
+        k0 = (int)g.below(ncell - 2);
+        k1 = (int)g.range(k0 + 1, ncell - 2);
+        k2 = (int)g.range(k1 + 1, ncell - 1);
+    }
     for (int i = 0; i < ncell; i++) {
         std::vector<std::string> refs;
         int nrf = (int)g.below(4);
+        if (i == k0) refs.push_back("r" + hx(chain - 1));
+        if (i == k1) refs.push_back("c" + hx(k0));
+        if (i == k2) refs.push_back("c" + hx(k1));
         for (int j = 0; j < nrf; j++) {
             int kind = (int)g.below(10);
             if (kind < 6 && i > 0)
@@ -1276,6 +1470,34 @@ static void gen_case(Out& out, Rng& g, bool legit) {
         doop("ac " + hx(i));
     }
     out.count("cells:" + std::to_string(ncell));
+    {
+        // what the initial library offers to the dependency oracle: the deepest raw-cell chain headed by a raw cell that a
+        // member cell references directly (level 0) or reaches through 1, 2, ... levels of Cell references
+        int best = 0;
+        std::set<int> levels;
+        for (int i : carr(w)) {
+            std::vector<std::pair<const Cell*, int>> work = {{w.cells[i], 0}};
+            std::set<std::pair<const Cell*, int>> seen;
+            while (!work.empty()) {
+                const Cell* c = work.back().first;
+                int lv = work.back().second;
+                work.pop_back();
+                if (lv > 7 || !seen.insert({c, lv}).second) continue;
+                for (uint64_t j = 0; j < c->reference_array.count; j++) {
+                    const Reference* r = c->reference_array[j];
+                    if (r->type == ReferenceType::Cell) work.push_back({r->cell, lv + 1});
+                    if (r->type == ReferenceType::RawCell) {
+                        int dp = raw_depth(w, r->rawcell);
+                        best = std::max(best, dp);
+                        if (dp >= 3) levels.insert(std::min(lv, 2));
+                    }
+                }
+            }
+        }
+        if (best >= 3) out.count("rawchain>=3:histories");
+        if (best >= 3) out.count(best >= 4 ? "rawchain:depth>=4" : "rawchain:depth3");
+        for (int lv : levels) out.count("rawchain>=3:seen-through-" + std::to_string(lv) + (lv == 2 ? "+" : "") + "-cell-levels");
+    }
     std::string setup_text;
     for (size_t i = 0; i < setup.size(); i++) setup_text += (i ? ";" : "") + setup[i];
 
@@ -1285,6 +1507,12 @@ static void gen_case(Out& out, Rng& g, bool legit) {
     std::string pres;
     bool oracle_on = legit;
     Deviation dev = {-1, "", ""};
+    {
+        std::vector<Deviation> v0;
+        top_level_deviations(w, "in the initial library", v0);
+        dependency_deviations(w, "in the initial library", v0);
+        keep_best(dev, v0);
+    }
     int len = (int)g.range(5, 40);
     std::vector<std::string> ops;
     for (int step = 0; step < len; step++) {
